@@ -568,6 +568,17 @@ fn c07_cases(quick: bool) -> Vec<Case> {
                     let conj: Vec<Tr> = leaves.iter().map(|l| Tr::Dfs(Box::new(Tr::Conj(vec![l.clone(), Tr::Leaf(k as u16)])))).collect();
                     out.push(Case { tree: Tr::Conde(conj.clone()), leaves: l4.clone() });
                     out.push(Case { tree: Tr::Disj(conj), leaves: l4 });
+                    // a statically failing branch (`false`) in every position among the others:
+                    // the remaining branches keep their turns
+                    for pos in 0..=k {
+                        let mut with_fail = leaves.clone();
+                        with_fail.insert(pos, Tr::Fail);
+                        out.push(Case { tree: Tr::Conde(with_fail.clone()), leaves: a.clone() });
+                        if pos == k {
+                            out.push(Case { tree: Tr::Disj(with_fail.clone()), leaves: a.clone() });
+                            out.push(Case { tree: Tr::Anyo(Box::new(Tr::Conde(with_fail))), leaves: a.clone() });
+                        }
+                    }
                 }
             }
         }
